@@ -67,6 +67,9 @@ int main(int argc, char** argv) {
   init.counters.users = v0;
   lock_obj.state.blob = init.blob;
   vr_reg(&lock_obj.state, 8, "lock");
+  /* part spin-tso: the critical-section counter is the data cell the lock protects (plain
+   * load and store inside the critical section become `csRead` / `csWrite` of Model/SpinTso) */
+  if (getenv("VH_DATA")) vr_reg((void*)&cs_counter, 8, "data");
   vr_note("init spin %u", v0);
   vh_run(do_op);
   long total = 0;
